@@ -331,7 +331,9 @@ class Sim:
             root = owner
         else:
             root = c
-        if owner is None and c not in self.fn[kind]:
+        # (extended grammar) the dump setup of a class with a bare-Condition field raises: nothing gets installed
+        gen_fails = kind == 'dump' and any(ty == 'badcond' for _, ty, _ in d['fields'])
+        if owner is None and c not in self.fn[kind] and not gen_fails:
             if d['wiz'] and not any(x in self.attr[kind] for x in [c] + d['mro']):
                 self.attr[kind][c] = self.i
             self.fn[kind].add(c)
